@@ -108,6 +108,17 @@ def expected (rows : Rows) (argv : List String) : Option String :=
     match rows.mapM (fun r => (translateSeq ph code r.2).map fun p => (r.1, p)) with
     | some r => some (ok r)
     | none => some bad
+  | "stats" :: "maxchar" :: fl =>
+    if L < 0 then none else
+    let ig := flag fl "--ignore-gaps" || flag fl "--exclude-gaps"; let iN := flag fl "--ignore-n"
+    some ("rc=0 out=site char nb|" ++ String.join ((List.range L.toNat).map fun j =>
+      let m := maxCharSite 1 ig iN (columnAt rows j)
+      toString j ++ " " ++ stringOfBytes [m.1] ++ " " ++ toString m.2.1 ++ "|"))
+  | ["stats", "nseq"] => some ("rc=0 out=" ++ toString rows.length ++ "|")
+  | ["stats", "length"] => if L < 0 then none else some ("rc=0 out=" ++ toString L ++ "|")
+  | ["stats", "taxa"] => some ("rc=0 out=" ++ String.join (rows.zipIdx.map fun (r, i) => toString i ++ " " ++ r.1 ++ "|"))
+  | ["stats", "gaps"] => some ("rc=0 out=" ++ String.join (rows.map fun r => r.1 ++ " " ++ toString (r.2.count GAP) ++ "|"))
+  | ["diff"] => some (ok (diffWithFirst rows))
   | "revcomp" :: rest =>
     -- cmd/revcomp.go: names given -> only those rows; `--unaligned` reads and writes plain sequences
     let names := rest.filter (· != "--unaligned")
